@@ -507,10 +507,8 @@ func main() {
 					cancel()
 					r.Eval(fmt.Sprintf("slow-deprecated-client|%d|%s|%s|%s", n, f, sc, verdict))
 					r.Event("slow-deprecated-client-under-an-expiring-context")
-					if res := revOf(out); verdict == "revoked" && res != nil && res.Error != nil && !strings.Contains(strings.ToLower(res.Error.Error()), "revoked") {
-						r.Violation(map[string]string{"kind": "revoked-not-reported", "scheme": sc, "legacy": "true", "action": "enforce", "shape": "slow-client-revoked"},
-							fmt.Sprintf("the deprecated client reports a certificate revoked (after 250 ms; the caller's context expired after 40 ms): the validation failed as %q, not as revoked", res.Error), nil)
-					}
+					// (only "does not pass" is judged here: a verifier that gives up on the slow client when the context ends and
+					// fails the validation as inconclusive has not been told "revoked" yet - that is failing closed, too)
 					if res := revOf(out); verr == nil || (res != nil && res.Error == nil) {
 						r.Violation(map[string]string{"kind": "aggregation", "scheme": sc, "legacy": "true", "action": "enforce", "shape": "slow-client-" + verdict},
 							fmt.Sprintf("the deprecated client answers %s after 250 ms, the caller's context expires after 40 ms: revocation passed=%v, accepted=%v", verdict, res != nil && res.Error == nil, verr == nil), nil)
